@@ -109,13 +109,16 @@ struct Meter {
     dev: Dev,
     max_read: u64,
     max_alloc: usize,
+    max_work: u64,
     calls: u64,
 }
 impl Meter {
     fn call<T>(&mut self, f: impl FnOnce() -> T) -> std::result::Result<T, String> {
         let r0 = self.dev.bytes_read();
         let m = alloc::mark();
+        let w0 = e57::verif::work_total();
         let r = catch(f);
+        self.max_work = self.max_work.max(e57::verif::work_total() - w0);
         self.max_alloc = self.max_alloc.max(alloc::peak_above(m));
         self.max_read = self.max_read.max(self.dev.bytes_read() - r0);
         self.calls += 1;
@@ -136,7 +139,7 @@ fn exercise(img: &[u8], name: &Value) -> Value {
     let size = img.len();
     let mut ops: Vec<Value> = Vec::new();
     let mut note = |op: &str, out: &str, m: &Meter, extra: Value| {
-        let mut v = json!({"op": op, "out": out, "devread": m.max_read, "alloc": m.max_alloc, "calls": m.calls});
+        let mut v = json!({"op": op, "out": out, "devread": m.max_read, "alloc": m.max_alloc, "work": m.max_work.min(2_000_000_000), "calls": m.calls});
         if let Some(o) = extra.as_object() {
             for (k, x) in o {
                 v[k] = x.clone();
@@ -147,30 +150,30 @@ fn exercise(img: &[u8], name: &Value) -> Value {
     // static entry points
     {
         let dev = Dev::from_bytes(img.to_vec());
-        let mut m = Meter { dev: dev.clone(), max_read: 0, max_alloc: 0, calls: 0 };
+        let mut m = Meter { dev: dev.clone(), max_read: 0, max_alloc: 0, max_work: 0, calls: 0 };
         let r = m.call(|| E57Reader::validate_crc(dev.clone()));
         note("validate_crc", outcome(&r), &m, json!({}));
     }
     {
         let dev = Dev::from_bytes(img.to_vec());
-        let mut m = Meter { dev: dev.clone(), max_read: 0, max_alloc: 0, calls: 0 };
+        let mut m = Meter { dev: dev.clone(), max_read: 0, max_alloc: 0, max_work: 0, calls: 0 };
         let r = m.call(|| E57Reader::raw_xml(dev.clone()));
         note("raw_xml", outcome(&r), &m, json!({}));
     }
     let dev = Dev::from_bytes(img.to_vec());
-    let mut m = Meter { dev: dev.clone(), max_read: 0, max_alloc: 0, calls: 0 };
+    let mut m = Meter { dev: dev.clone(), max_read: 0, max_alloc: 0, max_work: 0, calls: 0 };
     let r = m.call(|| E57Reader::new(dev.clone()));
     note("open", outcome(&r), &m, json!({}));
     let mut nproto = 0usize;
     if let Ok(Ok(mut rd)) = r {
-        let mut m = Meter { dev: dev.clone(), max_read: 0, max_alloc: 0, calls: 0 };
+        let mut m = Meter { dev: dev.clone(), max_read: 0, max_alloc: 0, max_work: 0, calls: 0 };
         let lst = m.call(|| (rd.pointclouds(), rd.images(), rd.extensions(), rd.xml().len(), rd.header()));
         note("listing", if lst.is_ok() { "ok" } else { "panic" }, &m, json!({}));
         if let Ok((pcs, images, _, _, _)) = lst {
             for (i, pc) in pcs.iter().enumerate() {
                 nproto = nproto.max(pc.prototype.len());
                 // raw iterator, driven to its first Err or None
-                let mut m = Meter { dev: dev.clone(), max_read: 0, max_alloc: 0, calls: 0 };
+                let mut m = Meter { dev: dev.clone(), max_read: 0, max_alloc: 0, max_work: 0, calls: 0 };
                 let it = m.call(|| rd.pointcloud_raw(pc));
                 let mut out = outcome(&it).to_string();
                 let mut yielded = 0u64;
@@ -192,7 +195,7 @@ fn exercise(img: &[u8], name: &Value) -> Value {
                 note("raw", &out, &m, json!({"pc": i, "yielded": limbs_u64(yielded), "records": limbs_u64(pc.records), "proto_len": pc.prototype.len()}));
                 // simple iterator under a few option vectors
                 for (oi, o) in [[true, true, false, true, true, true], [false, false, true, false, false, false], [true, true, true, true, false, true]].iter().enumerate() {
-                    let mut m = Meter { dev: dev.clone(), max_read: 0, max_alloc: 0, calls: 0 };
+                    let mut m = Meter { dev: dev.clone(), max_read: 0, max_alloc: 0, max_work: 0, calls: 0 };
                     let it = m.call(|| rd.pointcloud_simple(pc));
                     let mut out = outcome(&it).to_string();
                     let mut yielded = 0u64;
@@ -239,7 +242,7 @@ fn exercise(img: &[u8], name: &Value) -> Value {
             blobs.push(Blob::new(48, u64::MAX));
             blobs.push(Blob::new((size as u64).saturating_sub(20), 1 << 40));
             for b in blobs {
-                let mut m = Meter { dev: dev.clone(), max_read: 0, max_alloc: 0, calls: 0 };
+                let mut m = Meter { dev: dev.clone(), max_read: 0, max_alloc: 0, max_work: 0, calls: 0 };
                 let mut sink = std::io::sink();
                 let r = m.call(|| rd.blob(&b, &mut sink));
                 // bytes delivered with an Ok result (C06: never silently fewer or more than the descriptor says)
